@@ -134,10 +134,18 @@ theorem RRel.retWrap {N : NumOps} {Q : QRel} {β : Inj N} {D' : List DName} {r r
     exact RRel.mono hle (RRel.err hv h)
 
 /-- every call level respects the relation -/
-theorem callClosure_ok {N : NumOps} (ρ : ExtOracle N) (hρ : OracleFlat ρ)
-    (hCF : ∀ n, cx.CF N ρ n (callClosure ρ n)) : ∀ n, CallOK (VQ cx) cx (callClosure ρ n)
-  | 0 => fun _ _ _ _ _ _ _ _ _ _ => RRel.timeout
+theorem callClosure_ok_le {N : NumOps} (ρ : ExtOracle N) (hρ : OracleFlat ρ)
+    (hCF : ∀ n, cx.CF N ρ n (callClosure ρ n)) : ∀ n m, m ≤ n → CallOK (VQ cx) cx (callClosure ρ m)
+  | 0 => fun m hm => by
+    have : m = 0 := by omega
+    subst this
+    exact fun _ _ _ _ _ _ _ _ _ _ => RRel.timeout
   | n + 1 => by
+    intro m hm
+    by_cases hmn : m ≤ n
+    · exact callClosure_ok_le ρ hρ hCF n m hmn
+    have : m = n + 1 := by omega
+    subst this
     intro β c c' args args' σ σ' hcc ha hs
     obtain ⟨body, cenv, va⟩ := c
     obtain ⟨body', cenv', va'⟩ := c'
@@ -148,11 +156,16 @@ theorem callClosure_ok {N : NumOps} (ρ : ExtOracle N) (hρ : OracleFlat ρ)
       simp only [callClosure, hn]
       obtain ⟨β1, h1, hs1, he1⟩ := hs.bindLocals (List.map TName.name ps') hwp ha he
       refine RRel.mono h1 (RRel.retWrap (D' := D') ?_)
-      refine (fundB hbb).2 N _ ρ n _ _ _ _ _ ⟨hCF n, callClosure_ok ρ hρ hCF n, hρ⟩ hs1 ⟨?_, he1⟩
+      refine (fundB hbb).2 N _ ρ n _ _ _ _ _ ⟨hCF n, callClosure_ok_le ρ hρ hCF n n (Nat.le_refl n), hρ,
+        callClosure_ok_le ρ hρ hCF n⟩ hs1 ⟨?_, he1⟩
       simp only []
       split
       · exact (ha.drop _).mono h1
       · exact .nil
+
+theorem callClosure_ok {N : NumOps} (ρ : ExtOracle N) (hρ : OracleFlat ρ)
+    (hCF : ∀ n, cx.CF N ρ n (callClosure ρ n)) (n : Nat) : CallOK (VQ cx) cx (callClosure ρ n) :=
+  callClosure_ok_le ρ hρ hCF n n (Nat.le_refl n)
 
 /-! ### the initial state -/
 
@@ -280,7 +293,7 @@ theorem runChunk_rel {N : NumOps} (ρ : ExtOracle N) (hρ : OracleFlat ρ) (hCF 
     (hW0 : cx.top := by top_tac) :
     RRel (VQ cx) cx β AVs (runChunk ρ n b σ) (runChunk ρ n b' σ') := by
   unfold runChunk
-  exact RRel.retWrap ((fundB h).2 N _ ρ n _ _ _ _ _ ⟨hCF n, callClosure_ok ρ hρ hCF n, hρ⟩ hs
+  exact RRel.retWrap ((fundB h).2 N _ ρ n _ _ _ _ _ ⟨hCF n, callClosure_ok ρ hρ hCF n, hρ, fun m _ => callClosure_ok ρ hρ hCF m⟩ hs
     ⟨.nil, EnvRel.init hW0⟩)
 
 theorem observe_rel {N : NumOps} {β : Inj N} {r r' : Res N (List (Val N))} (h : RRel (VQ cx) cx β AVs r r') :
@@ -306,7 +319,7 @@ theorem observe_of_soundB {N : NumOps} {D D' : List DName} {b b' : Block} (h : S
       (cx.uptoR = true ∧ observe (wrapCtl (execB (callClosure ρ n) ρ n env' b' σ')) = .timeout) ∨
       observe (wrapCtl (execB (callClosure ρ n) ρ n env' b' σ')) =
         observe (wrapCtl (execB (callClosure ρ n) ρ n env b σ)) :=
-  observe_rel (RRel.retWrap (h.2 N _ ρ n env env' σ σ' β ⟨hCF n, callClosure_ok ρ hρ hCF n, hρ⟩ hs he))
+  observe_rel (RRel.retWrap (h.2 N _ ρ n env env' σ σ' β ⟨hCF n, callClosure_ok ρ hρ hCF n, hρ, fun m _ => callClosure_ok ρ hρ hCF m⟩ hs he))
 
 /-- **Observational refinement, most general form**: same outcome, or (only when `cx.upto`) the original exhausts
 its budget, or (only when `cx.uptoR`) the rewritten program does -/
